@@ -1,0 +1,128 @@
+//go:build verif
+
+package dhcp
+
+// Verification hooks for property C02 (also usable by C16). Accessors and injection points
+// only (-tags verif): a wrapper of the unexported packet handler with a capturing PacketConn,
+// a read-only snapshot of the lease table / circuit-ID index / pool, and a way to let time pass
+// for the lease table (the server reads time.Now directly).
+
+import (
+	"net"
+	"sort"
+	"time"
+
+	"github.com/insomniacslk/dhcp/dhcpv4"
+)
+
+type verifC02Conn struct {
+	pkts  [][]byte
+	dests []net.Addr
+}
+
+func (c *verifC02Conn) ReadFrom(p []byte) (int, net.Addr, error) { return 0, nil, net.ErrClosed }
+func (c *verifC02Conn) WriteTo(p []byte, addr net.Addr) (int, error) {
+	c.pkts = append(c.pkts, append([]byte(nil), p...))
+	c.dests = append(c.dests, addr)
+	return len(p), nil
+}
+func (c *verifC02Conn) Close() error                       { return nil }
+func (c *verifC02Conn) LocalAddr() net.Addr                { return &net.UDPAddr{IP: net.IPv4zero, Port: 67} }
+func (c *verifC02Conn) SetDeadline(t time.Time) error      { return nil }
+func (c *verifC02Conn) SetReadDeadline(t time.Time) error  { return nil }
+func (c *verifC02Conn) SetWriteDeadline(t time.Time) error { return nil }
+
+// VerifC02Handle runs handleDHCP on req and returns the datagrams the server wrote
+// (parsed with the same dhcpv4 library) together with their destinations.
+func (s *Server) VerifC02Handle(req *dhcpv4.DHCPv4, peer net.Addr) (replies []*dhcpv4.DHCPv4, dests []net.Addr, err error) {
+	c := &verifC02Conn{}
+	s.handleDHCP(c, peer, req)
+	for _, b := range c.pkts {
+		r, e := dhcpv4.FromBytes(b)
+		if e != nil {
+			return nil, nil, e
+		}
+		replies = append(replies, r)
+	}
+	return replies, c.dests, nil
+}
+
+// VerifC02Lease is a copy of the fields of a Lease that C02/C16 observe.
+type VerifC02Lease struct {
+	MAC       string
+	IP        net.IP
+	PoolID    uint32
+	ExpiresAt time.Time
+	CircuitID []byte
+}
+
+// VerifC02Snapshot is a read-only copy of the server's binding state for one pool.
+type VerifC02Snapshot struct {
+	Leases      []VerifC02Lease          // sorted by MAC string
+	ByCircuitID map[string]VerifC02Lease // hex(circuit-id) -> indexed lease object
+	Allocated   map[string]net.IP        // pool: MAC -> IP
+	Available   []net.IP                 // pool free list, in order
+	Unavailable []string                 // pool: declined addresses (sorted)
+}
+
+func verifC02Copy(l *Lease) VerifC02Lease {
+	return VerifC02Lease{MAC: l.MAC.String(), IP: append(net.IP(nil), l.IP...), PoolID: l.PoolID,
+		ExpiresAt: l.ExpiresAt, CircuitID: append([]byte(nil), l.CircuitID...)}
+}
+
+// VerifC02Snapshot copies the lease table, the circuit-ID index and the state of pool poolID.
+func (s *Server) VerifC02Snapshot(poolID uint32) VerifC02Snapshot {
+	var out VerifC02Snapshot
+	s.leasesMu.RLock()
+	for _, l := range s.leases {
+		out.Leases = append(out.Leases, verifC02Copy(l))
+	}
+	s.leasesMu.RUnlock()
+	sort.Slice(out.Leases, func(i, j int) bool { return out.Leases[i].MAC < out.Leases[j].MAC })
+	out.ByCircuitID = map[string]VerifC02Lease{}
+	s.leasesByCircuitIDMu.RLock()
+	for k, l := range s.leasesByCircuitID {
+		out.ByCircuitID[k] = verifC02Copy(l)
+	}
+	s.leasesByCircuitIDMu.RUnlock()
+	out.Allocated = map[string]net.IP{}
+	if p := s.poolMgr.GetPool(poolID); p != nil {
+		p.mu.Lock()
+		for m, ip := range p.allocated {
+			out.Allocated[m] = append(net.IP(nil), ip...)
+		}
+		for _, ip := range p.available {
+			out.Available = append(out.Available, append(net.IP(nil), ip...))
+		}
+		for k := range p.unavailable {
+			out.Unavailable = append(out.Unavailable, k)
+		}
+		p.mu.Unlock()
+	}
+	sort.Strings(out.Unavailable)
+	return out
+}
+
+// VerifC02AgeLeases lets d of time pass for the binding state: every lease object reachable from
+// the lease table or the circuit-ID index has d subtracted from ExpiresAt and SessionStart.
+// (Equivalent to advancing the clock by d for everything handleDHCP/cleanupExpiredLeases compare.)
+func (s *Server) VerifC02AgeLeases(d time.Duration) {
+	seen := map[*Lease]bool{}
+	s.leasesMu.Lock()
+	s.leasesByCircuitIDMu.Lock()
+	for _, l := range s.leases {
+		seen[l] = true
+	}
+	for _, l := range s.leasesByCircuitID {
+		seen[l] = true
+	}
+	for l := range seen {
+		l.ExpiresAt = l.ExpiresAt.Add(-d)
+		l.SessionStart = l.SessionStart.Add(-d)
+	}
+	s.leasesByCircuitIDMu.Unlock()
+	s.leasesMu.Unlock()
+}
+
+// VerifC02CleanupTick runs one iteration of the lease cleanup loop body.
+func (s *Server) VerifC02CleanupTick() { s.cleanupExpiredLeases() }
